@@ -196,6 +196,8 @@ func RandomHistory(e *Env, r *rand.Rand, p Profile) {
 			}
 		case "handle":
 			e.Apply(Step{Do: "handle", Name: pickS(r, p.Names)})
+		case "updfail":
+			e.Apply(Step{Do: "updfail", Name: pickS(r, p.Names)})
 		case "read":
 			e.Apply(Step{Do: "read", Name: pickS(r, p.Names)})
 		case "lookup":
